@@ -168,8 +168,8 @@ func c01(c *Ctx) {
 	rep := c.Rep
 
 	// (a) corpus: each position both as reached by play and as set up from its FEN
-	nPlay := c.Size(400, 12000)
-	nSynth := c.Size(3000, 100000)
+	nPlay := c.Size(400, 40000)
+	nSynth := c.Size(3000, 300000)
 	nSample := 0
 	forEachGame(c, "c01", nPlay, 90, nSynth, func(g Game) {
 		p := engPos(g.Start.FEN())
@@ -194,7 +194,7 @@ func c01(c *Ctx) {
 	// (b) full-width trees walked with the engine's own do/undo
 	roots := corpusRoots()
 	depth := c.Size(2, 3)
-	budget := c.Size(25000, 1500000) // nodes per shard
+	budget := c.Size(25000, 6000000) // nodes per shard
 	var walk func(p *position.Position, b *rc.Board, d int, path []string)
 	walk = func(p *position.Position, b *rc.Board, d int, path []string) {
 		if budget <= 0 {
@@ -220,7 +220,7 @@ func c01(c *Ctx) {
 		walk(engPos(fen), b, depth, []string{fen})
 	}
 	// trees from random playout positions
-	nTree := c.Size(64, 2000)
+	nTree := c.Size(64, 8000)
 	for i := 0; i < nTree; i++ {
 		if !c.Mine(i) {
 			continue
